@@ -15,7 +15,7 @@
 //! through the same decoders in-process.
 
 use crate::engine::*;
-use crate::props::{c01, c03, c04, c06, c07};
+use crate::props::{c03, c04, c06, c07};
 use proptest::strategy::{BoxedStrategy, Strategy, ValueTree};
 use proptest::test_runner::{Config, RngAlgorithm, TestRng, TestRunner};
 use serde::Serialize;
@@ -141,13 +141,39 @@ impl<C: CaseT> Target for Raw<C> {
     }
 }
 
+const PAD_LEN: usize = 1 << 18;
+
+fn pad() -> &'static [u8] {
+    static PAD: std::sync::OnceLock<Vec<u8>> = std::sync::OnceLock::new();
+    PAD.get_or_init(|| {
+        let mut x: u64 = 0x9E37_79B9_7F4A_7C15;
+        (0..PAD_LEN)
+            .map(|_| {
+                x ^= x << 13;
+                x ^= x >> 7;
+                x ^= x << 17;
+                (x >> 24) as u8
+            })
+            .collect()
+    })
+}
+
 impl<C: CaseT> Pass<C> {
     fn tree(&self, data: &[u8]) -> Option<Box<dyn ValueTree<Value = C>>> {
         if data.is_empty() {
             return None;
         }
-        let rng = TestRng::from_seed(RngAlgorithm::PassThrough, data);
-        let mut runner = TestRunner::new_with_rng(Config { failure_persistence: None, ..Config::default() }, rng);
+        // proptest's pass-through generator returns zeros once the bytes are used up, and rand's
+        // uniform sampler never accepts a constant zero stream: pad with a fixed pseudo-random tail
+        let mut bytes = Vec::with_capacity(data.len() + PAD_LEN);
+        bytes.extend_from_slice(data);
+        bytes.extend_from_slice(pad());
+        let rng = TestRng::from_seed(RngAlgorithm::PassThrough, &bytes);
+        let mut runner = TestRunner::new_with_rng(
+            // an exhausted byte stream yields zeros for ever: give up on filters quickly
+            Config { failure_persistence: None, max_local_rejects: 8, max_global_rejects: 8, ..Config::default() },
+            rng,
+        );
         self.strategy.new_tree(&mut runner).ok()
     }
 }
@@ -262,6 +288,110 @@ fn shr_c03(c: &c03::TextCase) -> Vec<c03::TextCase> {
     text_shrinks(&c.text).into_iter().map(|text| c03::TextCase { text, env: c.env.clone() }).collect()
 }
 
+/// Structured decoding of an expression tree (same shapes as `c03::arb_expr`: any expression
+/// may stand left of an assignment operator, `++`/`--` only apply to variables).
+struct Bytes<'a>(&'a [u8], usize);
+impl Bytes<'_> {
+    fn next(&mut self) -> u8 {
+        let b = self.0.get(self.1).copied().unwrap_or(0);
+        self.1 += 1;
+        b
+    }
+    fn done(&self) -> bool {
+        self.1 >= self.0.len()
+    }
+}
+
+const TREE_VARS: [&str; 5] = ["a", "b", "c", "_x1", "u"];
+const TREE_NUMS: [u64; 20] = [
+    0, 1, 2, 3, 7, 31, 32, 62, 63, 64, 65, 1 << 31, (1 << 31) - 1, 1 << 32, i64::MAX as u64, i64::MAX as u64 - 1, 1 << 62, 3037000500, u64::MAX, 1 << 63,
+];
+
+fn dec_expr(u: &mut Bytes, depth: u32) -> c03::Expr {
+    use c03::Expr;
+    let b = u.next();
+    let var = |x: u8| Expr::Var(TREE_VARS[x as usize % TREE_VARS.len()].to_string());
+    if depth == 0 || u.done() || b % 16 < 5 {
+        return match b % 16 {
+            0 | 1 | 5 | 6 => {
+                let k = u.next();
+                let radix = [10u8, 10, 10, 8, 16][(k >> 5) as usize % 5];
+                Expr::Num(TREE_NUMS[(k & 31) as usize % TREE_NUMS.len()], radix)
+            }
+            2 | 7 => {
+                let mut v = 0u64;
+                for _ in 0..8 {
+                    v = (v << 8) | u.next() as u64;
+                }
+                Expr::Num(v >> (b >> 4), 10)
+            }
+            _ => var(b >> 4),
+        };
+    }
+    match b % 16 {
+        5..=9 => {
+            let op = c03::BINOPS[u.next() as usize % c03::BINOPS.len()];
+            let l = dec_expr(u, depth - 1);
+            let r = dec_expr(u, depth - 1);
+            Expr::Bin(op, Box::new(l), Box::new(r))
+        }
+        10 | 11 => {
+            let op = c03::BINOPS[18 + u.next() as usize % 11];
+            let r = dec_expr(u, depth - 1);
+            Expr::Bin(op, Box::new(var(b >> 4)), Box::new(r))
+        }
+        12 => Expr::Pre(c03::PREOPS[u.next() as usize % 4], Box::new(dec_expr(u, depth - 1))),
+        13 => {
+            let k = u.next();
+            if k & 1 == 0 { Expr::Pre(c03::PREOPS[4 + (k as usize >> 1) % 2], Box::new(var(b >> 4))) } else { Expr::Post(k & 2 != 0, Box::new(var(b >> 4))) }
+        }
+        14 => {
+            let c = dec_expr(u, depth - 1);
+            let t = dec_expr(u, depth - 1);
+            let f = dec_expr(u, depth - 1);
+            Expr::Cond(Box::new(c), Box::new(t), Box::new(f))
+        }
+        _ => Expr::Paren(Box::new(dec_expr(u, depth - 1))),
+    }
+}
+
+fn dec_c03_tree(data: &[u8]) -> Option<c03::TreeCase> {
+    if data.len() < 5 {
+        return None;
+    }
+    let mut env = BTreeMap::new();
+    for (i, name) in ["a", "b", "c", "_x1"].iter().enumerate() {
+        let sel = data[i];
+        if sel & 0x80 == 0 {
+            env.insert(name.to_string(), ARITH_VALUES[(sel & 15) as usize].to_string());
+        }
+    }
+    let mut u = Bytes(&data[5..], 0);
+    let expr = dec_expr(&mut u, 6);
+    Some(c03::TreeCase { expr, env, blanks: data[4] as u32 * 0x0101_0101 })
+}
+
+fn shr_c03_tree(c: &c03::TreeCase) -> Vec<c03::TreeCase> {
+    use c03::Expr;
+    // replace the root by one of its children; drop variables from the environment
+    let mut out = vec![];
+    let kids: Vec<&Expr> = match &c.expr {
+        Expr::Bin(_, l, r) => vec![l, r],
+        Expr::Pre(_, x) | Expr::Post(_, x) | Expr::Paren(x) => vec![x],
+        Expr::Cond(a, b, d) => vec![a, b, d],
+        _ => vec![],
+    };
+    for k in kids {
+        out.push(c03::TreeCase { expr: (*k).clone(), env: c.env.clone(), blanks: 0 });
+    }
+    for name in c.env.keys() {
+        let mut env = c.env.clone();
+        env.remove(name);
+        out.push(c03::TreeCase { expr: c.expr.clone(), env, blanks: c.blanks });
+    }
+    out
+}
+
 fn dec_c04(data: &[u8]) -> Option<c04::PatCase> {
     // byte 0: mode; then text; '\n' separates pattern from subject; U+0001 marks the next pattern
     // character as quoted (literal)
@@ -301,7 +431,7 @@ fn shr_c07(c: &c07::QuoteCase) -> Vec<c07::QuoteCase> {
     text_shrinks(&c.s).into_iter().map(|s| c07::QuoteCase { s }).collect()
 }
 
-pub const TARGET_NAMES: [&str; 8] = ["c06_text", "c06_grammar", "c06_mutant", "c03_text", "c03_tree", "c04_pat", "c07_quote", "c01_word"];
+pub const TARGET_NAMES: [&str; 7] = ["c06_text", "c06_grammar", "c06_mutant", "c03_text", "c03_tree", "c04_pat", "c07_quote"];
 
 pub fn target(name: &str) -> Option<Box<dyn Target>> {
     Some(match name {
@@ -309,10 +439,9 @@ pub fn target(name: &str) -> Option<Box<dyn Target>> {
         "c06_grammar" => Box::new(Pass { name: "c06_grammar", max_len: 1024, driver: &c06::GRAMMAR, strategy: c06::arb_grammar().boxed() }),
         "c06_mutant" => Box::new(Pass { name: "c06_mutant", max_len: 1024, driver: &c06::MUTANT, strategy: c06::arb_mutant().boxed() }),
         "c03_text" => Box::new(Raw { name: "c03_text", max_len: 96, driver: &c03::TEXT, decode: dec_c03, shrink: shr_c03 }),
-        "c03_tree" => Box::new(Pass { name: "c03_tree", max_len: 1024, driver: &c03::TREE, strategy: c03::arb_tree_case().boxed() }),
+        "c03_tree" => Box::new(Raw { name: "c03_tree", max_len: 160, driver: &c03::TREE, decode: dec_c03_tree, shrink: shr_c03_tree }),
         "c04_pat" => Box::new(Raw { name: "c04_pat", max_len: 64, driver: &c04::PAT, decode: dec_c04, shrink: shr_c04 }),
         "c07_quote" => Box::new(Raw { name: "c07_quote", max_len: 48, driver: &c07::QUOTE, decode: dec_c07, shrink: shr_c07 }),
-        "c01_word" => Box::new(Pass { name: "c01_word", max_len: 1024, driver: &c01::WORD, strategy: c01::arb_word_case().boxed() }),
         _ => return None,
     })
 }
@@ -345,14 +474,9 @@ fn flush(name: &str, c: &Counters) {
     }
 }
 
-extern "C" fn at_exit() {
-    STATE.with(|s| {
-        if let Ok(b) = s.try_borrow() {
-            if let Some((t, c)) = &*b {
-                flush(t.name(), c);
-            }
-        }
-    });
+fn runs_announced() -> Option<u64> {
+    thread_local! { static RUNS: Option<u64> = std::env::var("VCHECK_FUZZ_RUNS").ok().and_then(|v| v.parse().ok()); }
+    RUNS.with(|r| *r)
 }
 
 /// Entry point of every fuzz binary.
@@ -363,7 +487,6 @@ pub fn fuzz_one(name: &'static str, data: &[u8]) {
             install_panic_hook();
             let t = target(name).expect("unknown fuzz target");
             init_known(t.prop());
-            unsafe { libc::atexit(at_exit) };
             *b = Some((t, Counters::default()));
         }
         let (t, c) = b.as_mut().unwrap();
@@ -396,7 +519,8 @@ pub fn fuzz_one(name: &'static str, data: &[u8]) {
                 }
             }
         }
-        if c.evals % 4096 == 0 {
+        // no exit hook (thread-local state is gone by then): flush often, and at the last execution
+        if c.evals % 512 == 0 || Some(c.evals) == runs_announced() {
             flush(t.name(), c);
         }
     });
@@ -462,6 +586,7 @@ pub fn run_stage(ctx: &Ctx, st: &mut Stats, name: &str, runs: u64) -> bool {
             .arg(format!("-artifact_prefix={dir}/art-"))
             .env("VCHECK_FUZZ_FAILS", format!("{dir}/fails.jsonl"))
             .env("VCHECK_FUZZ_STATS", format!("{dir}/stats.json"))
+            .env("VCHECK_FUZZ_RUNS", runs.to_string())
             .stdout(std::process::Stdio::null())
             .stderr(std::fs::File::create(format!("{dir}/log")).map(std::process::Stdio::from).unwrap_or(std::process::Stdio::null()));
         match cmd.spawn() {
@@ -551,4 +676,18 @@ pub fn run_stage(ctx: &Ctx, st: &mut Stats, name: &str, runs: u64) -> bool {
     let _ = std::fs::remove_dir_all(&work);
     let _ = std::fs::remove_dir(format!("{}/fuzz-work", out_root()));
     abnormal.is_empty()
+}
+
+/// Quick: replay of the committed corpus. Thorough: the replay, then a libFuzzer campaign of
+/// `runs` executions in each of `ctx.threads` processes per target.
+pub fn tier_stage(ctx: &Ctx, st: &mut Stats, targets: &[(&str, u64)]) {
+    for (name, runs) in targets {
+        replay_corpus(st, name);
+        if ctx.tier == Tier::Thorough && !run_stage(ctx, st, name, *runs) {
+            let e = st.extra.entry("inconclusive".into()).or_insert_with(|| json!([]));
+            if let Some(a) = e.as_array_mut() {
+                a.push(json!(format!("libFuzzer stage {name} did not complete normally (see fuzz:{name})")));
+            }
+        }
+    }
 }
